@@ -37,6 +37,8 @@ type HCFacts struct {
 	LuaFns          []HCLuaFn
 	CallbackCallers [][2]string // (Go callback, C function that calls it directly), sorted
 	FnPtrWiring     [][2]string // `lj_internal_* = f;` assignments: (pointer, function)
+	ErrChecks       [][4]string // (Go callback that refuses with an error value, C caller, test of the returned value, raise|noraise)
+	Refusing        []string    // exported Go callbacks that have a refusing flag branch, in program order
 }
 
 var hcGuards = map[string]bool{"luaCheckView": true, "sqlcheck_is_readonly_sql": true, "sqlite3_stmt_readonly": true}
@@ -277,14 +279,33 @@ func HScanC(dir string, prog *HProgram) (*HCFacts, error) {
 		names = append(names, k)
 	}
 	sort.Strings(names)
+	refusing := map[string]bool{}
+	for _, r := range prog.Facts.FlagBranches {
+		if strings.Contains(r[2], "refuse") && exported[r[0]] && !refusing[r[0]] {
+			refusing[r[0]] = true
+			facts.Refusing = append(facts.Refusing, r[0])
+		}
+	}
 	for _, k := range names {
 		f := facts.Funcs[k]
 		for _, c := range f.Calls {
 			if exported[c] {
 				facts.CallbackCallers = append(facts.CallbackCallers, [2]string{c, f.Name})
 			}
+			if refusing[c] {
+				facts.ErrChecks = append(facts.ErrChecks, hcErrChecks(f, c)...)
+			}
 		}
 	}
+	sort.Slice(facts.ErrChecks, func(i, j int) bool {
+		a, b := facts.ErrChecks[i], facts.ErrChecks[j]
+		for k := 0; k < 4; k++ {
+			if a[k] != b[k] {
+				return a[k] < b[k]
+			}
+		}
+		return false
+	})
 	sort.Slice(facts.CallbackCallers, func(i, j int) bool {
 		a, b := facts.CallbackCallers[i], facts.CallbackCallers[j]
 		if a[0] != b[0] {
